@@ -4,6 +4,7 @@ import ReqVerif.Model.Select
 import ReqVerif.Model.Tags
 import ReqVerif.Model.Solver
 import ReqVerif.Model.GraphCheck
+import ReqVerif.Model.SourceWalk
 /-!
 rvdriver: line protocol between the Python harness and the executable models.
 One JSON object per input line (`{"op": ..., ...}`), one JSON value per output line.
@@ -186,6 +187,20 @@ def opCompile (j : Json) : Json :=
   | .noCand k cs => Json.mkObj [("nocand", Json.arr #[Json.str (str k), jsonNats cs]), ("graph", dumpState r.1), ("roots", roots)]
   | .internal k => Json.mkObj [("internal", Json.str k)]
 
+/-! ### Source walk (C18) -/
+
+partial def parseTree (j : Json) : Walk.Tree :=
+  .dir (jStr j "name") (jStrs j "files") ((jArr j "subs").map parseTree)
+
+def opWalk (j : Json) : Json :=
+  let cfg : Walk.Cfg :=
+    { special := jStrs j "special", markers := jStrs j "markers",
+      excluded := (jArr j "excluded").map fun e => match e with
+        | Json.null => Walk.Excl.above
+        | other => Walk.Excl.inside ((other.getArr?.toOption.getD #[]).toList.filterMap fun x => x.getStr?.toOption) }
+  let r := Walk.findSourceDirs cfg (parseTree (jObj j "tree"))
+  Json.arr (r.map fun p => jsonStrs p).toArray
+
 def dispatch (op : String) (j : Json) : Json :=
   match op with
   | "merge" => opMerge j
@@ -195,6 +210,7 @@ def dispatch (op : String) (j : Json) : Json :=
   | "select" => opSelect j
   | "tags" => opTags j
   | "history" => opHistory j
+  | "walk" => opWalk j
   | "compile" => opCompile j
   | "sort-cands" => opSortCands j
   | "hello" => Json.mkObj [("protocol", (1 : Nat))]
